@@ -764,6 +764,13 @@ impl Cursor<'_> {
                         }
                         _ => (),
                     }
+                } else if matches!(self.first(), 'e' | 'E')
+                    && (self.second().is_ascii_digit()
+                        || matches!(self.second(), '+' | '-'))
+                {
+                    // No digits between the dot and the exponent: `1.e3`, `1.E-3`.
+                    self.bump();
+                    empty_exponent = !self.eat_float_exponent();
                 }
                 Float {
                     base,
